@@ -115,6 +115,8 @@ func (_this *MarkedObjectAnyTypeRule) OnArrayBegin(ctx *Context, arrayType event
 	ctx.ParentRule().OnArrayBegin(ctx, arrayType)
 }
 func (_this *MarkedObjectAnyTypeRule) OnChildContainerEnded(ctx *Context, cType DataType) {
+	// The container may itself have held markers, so restore the ID that belongs to this marker
+	ctx.markerID = ctx.CurrentEntry.MarkerID
 	ctx.MarkObject(cType)
 	ctx.UnstackRule()
 	ctx.CurrentEntry.Rule.OnChildContainerEnded(ctx, cType)
